@@ -90,6 +90,10 @@ var pegAltBefore = []string{"st_assign: st_name2 before st_name2r", "st_assign: 
 // included, is literal text (C13: every text has a spelling in every style that can hold it).
 var pegClassExcludes = []string{"strPart1Normal: '\\", "strPart2Normal: \"\\", "strPart3Normal: `\\{", "strPart4Normal: \x1e\\{"}
 
+// pegLetterFree: number literals cannot consume an ASCII letter (C18: in `^st力量1.5e2` the value 1.5 ends where the
+// attribute name e begins; an exponent suffix or any other letter inside a literal swallows the next edit).
+var pegLetterFree = []string{"float", "number"}
+
 // jsonInt / jsonFloat / jsonStr: the value the JSON document held by b has at a tag path such as "t", "v", "v.expr"
 // (encoding/json document model of dsvc: what Marshal wrote at a path is what Unmarshal reads there).
 func jsonInt(b []byte, path string) IntType   { panic("spec only") }
